@@ -45,6 +45,7 @@ def _transforms(rng, nd):
     out.append(("flip", lambda a, ax=ax: np.flip(a, ax)))
     pads = [(rng.randint(0, 3), rng.randint(0, 3)) for _ in range(nd)]
     out.append(("pad", lambda a, pads=pads: np.pad(a, pads)))
+    out.append(("pad-all-axes", lambda a: np.pad(a, [(1, 2)] * a.ndim)))
     out.append(("fortran", lambda a: np.asfortranarray(a)))
     out.append(("negstride", lambda a: np.ascontiguousarray(a[::-1])[::-1]))  # same content, negative stride along axis 0
     out.append(("noncontig", lambda a: np.pad(a, [(0, 0)] * (a.ndim - 1) + [(0, a.shape[-1])])[..., : a.shape[-1]]))
@@ -120,11 +121,33 @@ def bounded(params):
     evals += 1
     if bb["violated"]:
         failures.append({"input": "bounding boxes", "problems": bb["problems"][:3], "replay_kind": "c10.bbox"})
+    # solid objects in arrays with a singleton axis, compared with the same scene zero-padded along every axis
+    for shape, ax in (((1, 8, 8), 0), ((8, 8, 1), 2), ((1, 12), 0)):
+        pred, ref = np.zeros(shape, np.uint8), np.zeros(shape, np.uint8)
+        sl = lambda lo, hi, lo2=None, hi2=None: tuple(slice(None) if k == ax else (slice(lo, hi) if (k == (1 if ax == 0 else 0)) or len(shape) == 2 else slice(lo2 if lo2 is not None else lo, hi2 if hi2 is not None else hi)) for k in range(len(shape)))
+        ref[sl(0, 4)] = 1
+        pred[sl(1, 5)] = 1
+        if len(shape) == 3:
+            ref[sl(5, 8, 5, 8)] = 2
+            pred[sl(5, 8, 4, 7)] = 2
+        for it in ("SEMANTIC", "UNMATCHED_INSTANCE", "MATCHED_INSTANCE"):
+            evals += 1
+            try:
+                base = _eval(pred.copy(), ref.copy(), it)
+                got = _eval(np.pad(pred, [(1, 2)] * pred.ndim), np.pad(ref, [(1, 2)] * ref.ndim), it)
+            except Exception as e:
+                base, got = {}, {"raised": f"{type(e).__name__}: {e}"[:100]}
+            if got != base and len(failures) < 5:
+                diff = {k: (base.get(k), got.get(k)) for k in set(base) | set(got) if base.get(k) != got.get(k)}
+                failures.append({"input": {"transform": "pad-all-axes (singleton axis)", "input_type": it, "pred": pred.tolist(), "ref": ref.tolist()}, "problems": [str(diff)[:300]], "replay_kind": "c10.e2e"})
     n = 40 if tier == "quick" else 400
     for it_no in range(n):
         nd = rng.choice([1, 2, 3])
         if it_no % 2 == 0:
             shape = tuple(nrng.randint(3, 6, size=nd)) if nd > 1 else (nrng.randint(6, 12),)
+            if it_no % 6 == 4 and nd > 1:
+                ax = rng.randrange(nd)  # a singleton axis: one-slice volume / one-row image (padding along it must change nothing either)
+                shape = tuple(1 if k == ax else s for k, s in enumerate(shape))
             pred = (nrng.rand(*shape) < 0.45).astype(np.uint8) * nrng.randint(1, 4, size=shape).astype(np.uint8)
             ref = (nrng.rand(*shape) < 0.45).astype(np.uint8) * nrng.randint(1, 4, size=shape).astype(np.uint8)
         else:
